@@ -291,12 +291,10 @@ def check_mseq(line, res):
     if n < 1 or pad not in PADS: return None            # Nullpadding: code <-> model only (known finding C10-nullpad-remove)
     t = line.split()
     head = ['mode'] + t[1:7]
-    if res == 'ERR':
-        # a constructor raised: right when the key / IV is one the cipher / mode must refuse
-        if key_ok(cid, n, key) and ((iv is None) if mode in ('ECB', 'CTS_ECB') else (iv is not None and len(iv) == n)):
-            return 'modeseq: the constructor raised for an admissible configuration'
-        return None
-    outs = res.split(';')
+    adm = key_ok(cid, n, key) and ((iv is None) if mode in ('ECB', 'CTS_ECB') else (iv is not None and len(iv) == n))
+    if not adm: return None if res == 'ERR' else 'modeseq: a constructor accepted a key / IV it must refuse'
+    if res == 'ERR' and len(steps) > 1: return 'modeseq: the constructor raised for an admissible configuration'
+    outs = res.split(';')          # (a one-step line: `ERR` is the result of the step)
     if len(outs) != len(steps): return 'modeseq: %d results for %d steps' % (len(outs), len(steps))
     for i, (st, got) in enumerate(zip(steps, outs)):
         where = 'modeseq step %d of %d on one object (%s)' % (i + 1, len(steps), t[7 + i][:40])
